@@ -44,7 +44,19 @@ def gen_case(rng):
         elif k == "slice_step":
             by = rng.choice([1, 2, 3]); ops.append({"k": k, "by": by}); f = (f + by - 1) // by
         elif k == "matmul" and (P >= 2 or f <= 1) and P > 0 and n > 0 and f > 0:
-            ops.append({"k": k, "m": [[f64_bits(float(rng.randint(-2, 2))) for _ in range(dims)] for _ in range(dims)]})
+            m = [[float(rng.randint(-2, 2)) for _ in range(dims)] for _ in range(dims)]
+            fam = rng.random()
+            if fam < 0.25:                         # projections: one or more all-zero columns / rows (an axis dropped), down to the zero matrix
+                for j in rng.sample(range(dims), rng.randint(1, dims)):
+                    for r in m:
+                        r[j] = 0.0
+            elif fam < 0.35:
+                for j in rng.sample(range(dims), rng.randint(1, dims)):
+                    m[j] = [0.0] * dims
+            elif fam < 0.45:                       # permutation / sign flips
+                perm = list(range(dims)); rng.shuffle(perm)
+                m = [[(rng.choice([1.0, -1.0]) if perm[i] == j else 0.0) for j in range(dims)] for i in range(dims)]
+            ops.append({"k": k, "m": [[f64_bits(x) for x in r] for r in m]})
         elif k == "copy" or (k == "flatten" and f * P * n > 0):
             ops.append({"k": k})
         elif k == "zero_filled":
